@@ -22,7 +22,16 @@ const (
 	KCtx       Kind = "ctx"   // context.Context
 	KStructPtr Kind = "sptr"  // *Sn with exported fields (Struct expansion)
 	KStructVal Kind = "sval"  // Sn by value
+	KExt       Kind = "ext"   // pointer to a type of another package whose package name collides with a sibling's (engine B only)
 )
+
+// ExtTypes are the foreign types engine B mixes in: same package name, same type name, different packages.
+var ExtTypes = []struct{ Alias, Path, Type string }{
+	{"ttemplate", "text/template", "Template"},
+	{"htemplate", "html/template", "Template"},
+	{"mrand", "math/rand", "Rand"},
+	{"mrand2", "math/rand/v2", "Rand"},
+}
 
 type Field struct {
 	Name     string `json:"name"`
@@ -42,7 +51,7 @@ type Type struct {
 // Expr is the Go spelling of the type.
 func (t *Type) Expr() string {
 	switch t.Kind {
-	case KPtr, KStructPtr:
+	case KPtr, KStructPtr, KExt:
 		return "*" + t.Name
 	case KCtx:
 		return "context.Context"
@@ -51,7 +60,7 @@ func (t *Type) Expr() string {
 }
 
 func (t *Type) Nillable() bool {
-	return t.Kind == KPtr || t.Kind == KStructPtr || t.Kind == KIface || t.Kind == KCtx
+	return t.Kind == KPtr || t.Kind == KStructPtr || t.Kind == KIface || t.Kind == KCtx || t.Kind == KExt
 }
 
 type Provider struct {
